@@ -55,9 +55,10 @@ type Backend[T Number, A ND[T, A]] struct {
 	Type     string // element type name
 	GoBacked bool
 	New      func(vals []T, dims []int) *Root[T, A]
-	Scale    func(dest, src A, k T)          // nil when not generated for T
-	AddTo    func(dest, src A)               // nil when not generated for T
-	Func1    func(dest, src A, fn func(T) T) // nil when not generated for T
+	Alt      func(vals []T, dims []int) *Root[T, A] // the same element type on the other back-end (sources of mixed two-array operations); may be nil
+	Scale    func(dest, src A, k T)                 // nil when not generated for T
+	AddTo    func(dest, src A)                      // nil when not generated for T
+	Func1    func(dest, src A, fn func(T) T)        // nil when not generated for T
 }
 
 // Op is one transition.
@@ -340,6 +341,7 @@ type Options struct {
 	OpPairs     bool // every ordered pair of write operations through the same view object (small roots, depth <= 1)
 	BulkPairs   bool // two-array operations
 	Steps       []int
+	Coarse      bool // axes longer than 8: only a few start positions and the lengths around 16, 32 and 64 plus the full extent ("wide" roots that cross size thresholds of fast paths)
 	MaxFailures int
 	Prop        string // property id for signatures
 }
@@ -444,6 +446,7 @@ func Explore[T Number, A ND[T, A]](be *Backend[T, A], rootShape []int, opt Optio
 	for depth := 0; len(frontier) > 0; depth++ {
 		var next []node
 		for _, nd := range frontier {
+			ReleaseC() // no array of the previous state is referenced from here on
 			e.checkState(nd.chain)
 			if len(e.fails) >= maxInt(opt.MaxFailures, 1)*8 {
 				return e.st, e.list()
@@ -502,6 +505,7 @@ func Explore[T Number, A ND[T, A]](be *Backend[T, A], rootShape []int, opt Optio
 	}
 	e.st.FrontierEmpty = unexplored == 0
 	e.st.UnexploredSuccessors = unexplored
+	ReleaseC()
 	return e.st, e.list()
 }
 
@@ -541,8 +545,8 @@ func (e *explorer[T, A]) alphabet(m *mview[T]) []Op {
 				if st == 0 {
 					st = 1
 				}
-				for loc := 0; loc < shape[d]; loc++ {
-					for dim := 1; loc+(dim-1)*st < shape[d]; dim++ {
+				for _, loc := range e.axisStarts(shape[d]) {
+					for _, dim := range e.axisLens(shape[d], loc, st) {
 						if dim == 1 && s > 1 {
 							continue // a single element: the step is irrelevant, keep the unit-step variant only
 						}
@@ -588,6 +592,57 @@ func (e *explorer[T, A]) alphabet(m *mview[T]) []Op {
 				out = append(out, Op{Kind: "reshape", Shape: s})
 			}
 		}
+	}
+	return out
+}
+
+// axisStarts / axisLens: the positions and run lengths enumerated along one axis of extent n. Everything for short axes;
+// for long axes of a Coarse exploration a fixed small set that brackets the usual size thresholds.
+func (e *explorer[T, A]) axisStarts(n int) []int {
+	var out []int
+	if !e.opt.Coarse || n <= 8 {
+		for i := 0; i < n; i++ {
+			out = append(out, i)
+		}
+		return out
+	}
+	return []int{0, 1, 5}
+}
+
+func (e *explorer[T, A]) axisLens(n, loc, step int) []int {
+	maxL := 0
+	for L := 1; loc+(L-1)*step < n; L++ {
+		maxL = L
+	}
+	var out []int
+	if !e.opt.Coarse || n <= 8 {
+		for L := 1; L <= maxL; L++ {
+			out = append(out, L)
+		}
+		return out
+	}
+	seen := map[int]bool{}
+	for _, L := range []int{1, 2, 15, 16, 17, 31, 32, 33, 63, 64, 65, maxL - 1, maxL} {
+		if L >= 1 && L <= maxL && !seen[L] {
+			seen[L] = true
+			out = append(out, L)
+		}
+	}
+	sort.Ints(out)
+	return out
+}
+
+// positions: every index vector whose components are axis starts
+func (e *explorer[T, A]) positions(shape []int) [][]int {
+	out := [][]int{{}}
+	for d := range shape {
+		var next [][]int
+		for _, p := range out {
+			for _, x := range e.axisStarts(shape[d]) {
+				next = append(next, append(append([]int{}, p...), x))
+			}
+		}
+		out = next
 	}
 	return out
 }
